@@ -30,7 +30,14 @@ def build_file(case):
             else:
                 t.append(mido.Message('note_on', note=note % 128, velocity=note // 128 % 128, time=delta))
         trs.append(t)
-    return mido.MidiFile(type=ty, ticks_per_beat=tpb, tracks=trs)
+    mid = mido.MidiFile(type=ty, ticks_per_beat=tpb, tracks=trs)
+    if case.get('loaded'):
+        # the same contents as a file loaded from bytes (ticks_per_beat then comes from the header)
+        import io
+        buf = io.BytesIO()
+        mid.save(file=buf)
+        mid = mido.MidiFile(file=io.BytesIO(buf.getvalue()))
+    return mid
 
 
 def merged_ref(tracks):
@@ -250,7 +257,7 @@ def gen(ck):
         sched = [(rng.choice([0, 0, 0, rng.randint(0, 5 * 10 ** 8), rng.randint(0, 10 ** 12)]),
                   rng.choice([0, 0, rng.randint(0, 10 ** 9)])) for _ in range(nmsg + 1)]
         cases.append({'type': ty, 'tpb': tpb, 'tracks': tracks, 'start': rng.choice([0, 12345678, 10 ** 13]),
-                      'sched': sched, 'meta': rng.random() < 0.5})
+                      'sched': sched, 'meta': rng.random() < 0.5, 'loaded': rng.random() < 0.4})
     return cases
 
 
@@ -269,8 +276,9 @@ def run(ck):
     reqs, impl, plays = [], [], []
     for case, (out, fail) in zip(cases, res):
         nz = any(d > 0 for tr in case['tracks'] for (d, _, _) in tr)
-        ck.note_case(repr((case['type'], case['tpb'], case['tracks'])), nontrivial=nz)
+        ck.note_case(repr((case['type'], case['tpb'], case['tracks'], case.get('loaded', False))), nontrivial=nz)
         ck.count('type:%d' % case['type'])
+        ck.count('file:' + ('loaded-from-bytes' if case.get('loaded') else 'built-in-memory'))
         ck.count('tracks:%d' % len(case['tracks']))
         ck.count('tempo_changes:%d' % sum(1 for tr in case['tracks'] for e in tr if e[1] is not None))
         if fail:
